@@ -42,6 +42,7 @@ def run_campaign(chk, b, profiles, ncases, facets, sig_prefix, nontrivial_fn, ru
         stats["repositories_in_promisor_layout"] += 1 if r.get("promisor_layout") else 0
         stats["runs_with_a_stalled_or_slow_stderr_reader"] += r.get("slow_stderr_runs", 0)
         stats["runs_with_children_delivering_in_one_burst"] += r.get("burst_runs", 0)
+        stats["runs_with_children_starting_seconds_late"] += r.get("late_start_runs", 0)
         stats["runs_with_the_batch_stream_cut_inside_its_last_record"] += r.get("tail_cut_runs", 0)
         stats["runs_with_stalling_children"] += r.get("stalled_runs", 0)
         stats["runs_with_for_each_ref_output_cut_mid_line"] += r.get("cut_ref_runs", 0)
